@@ -138,7 +138,11 @@ def real_process_run(kind, inst, seed, fes):
 
         def integers(self, *a, **k):
             v = self.r.integers(*a, **k)
-            rec["draws"].append(int(v))
+            try:
+                rec["draws"].append(int(v))
+            except TypeError:     # a block of numbers drawn at once: recorded in generation order
+                import numpy as np
+                rec["draws"].extend(int(t) for t in np.asarray(v).ravel())
             return v
 
     class ProcProxy:
@@ -519,13 +523,17 @@ def streams(ck: Check) -> None:
 
     # ---- the real process (real RNG) replayed in the model; not attempted if the code was seen to leave its arrays
     for kind in ("ea", "fea"):
-        for _ in range(0 if any_oob else (3 if ck.quick else 12)):
-            n = rng.choice([5, 9, 16])
+        # (the last runs are LONG: several thousand index pairs, so that whatever an algorithm does per block of random
+        # numbers or per so-many iterations happens at least once; found missing by seeded change C06-bulk-draws-unsorted-refill)
+        budgets = [300, 300, 300, 2600, 7000] if ck.quick else [300] * 8 + [2600, 2600, 7000, 7000, 20000]
+        for fes in ([] if any_oob else budgets):
+            n = rng.choice([5, 9, 16]) if fes <= 300 else rng.choice([5, 7, 12])
             M = sym_matrix(rng, n, 50, "euclid")
             inst = make_instance(M)
             if inst is None:
                 continue
-            start, moves, trace, best = real_process_run(kind, inst, rng.randint(0, 2**31), 300)
+            start, moves, trace, best = real_process_run(kind, inst, rng.randint(0, 2**31), fes)
+            ck.count(f"realproc_fes_{fes}")
             ck.count("realproc")
             ub = int(inst.tour_length_upper_bound)
             hd = f"{n}" if kind == "ea" else f"{n} {ub}"
